@@ -126,14 +126,14 @@ class Session(object):
 
     def call(self, api, *a, **kw):
         info = kw.pop('_info', None)
-        self.rec.ev('call', api=api, info=info if info is not None else {})
+        self.rec.ev('call', api=api, info=info if info is not None else {}, clk=int(self.clock.time()))
         try:
             v = self.raw(api, *a, **kw)
         except transports.Watchdog as e:
             self.rec.ev('exc', api=api, cls='Watchdog')
             return Outcome('exc', exc=e)
         except Exception as e:  # noqa
-            self.rec.ev('exc', api=api, cls=type(e).__name__, avail=bool(self.device.available))
+            self.rec.ev('exc', api=api, cls=type(e).__name__, avail=bool(self.device.available), clk=int(self.clock.time()))
             return Outcome('exc', exc=e)
-        self.rec.ev('ret', api=api, avail=bool(self.device.available))
+        self.rec.ev('ret', api=api, avail=bool(self.device.available), clk=int(self.clock.time()))
         return Outcome('ret', value=v)
